@@ -330,6 +330,29 @@ impl<'a> G<'a> {
         Op::Batch { items, dur }
     }
 
+    /// A batch of 34-120 small items over all live keyspaces, interleaved, naming the same keys
+    /// again and again (the last operation on a key wins; every item shares the batch's seqno)
+    pub fn big_batch(&mut self) -> Op {
+        let n = self.r.range(34, 120) as usize;
+        let mut items: Vec<BItem> = vec![];
+        for _ in 0..n {
+            let Some(ks) = self.live_ks() else { break };
+            let key = self.key();
+            let kind = match self.r.below(5) {
+                0 => BKind::Del,
+                _ => {
+                    let sz = *self.r.pick(&[0u32, 1, 8, 24]);
+                    BKind::Put(self.val_sized(sz, true))
+                }
+            };
+            self.note_write(ks, key);
+            // weak removes need "written exactly once": not true any more for repeated keys
+            self.note_write(ks, key);
+            items.push(BItem { ks, key, kind });
+        }
+        Op::Batch { items, dur: None }
+    }
+
     pub fn ingest(&mut self, ks: KsIdx) -> Op {
         let nk = self.cfg.keys.len();
         let mut items = vec![];
@@ -394,7 +417,13 @@ impl<'a> G<'a> {
                 self.write_count[ks as usize][key as usize] = 0;
                 vec![Op::RemoveWeak { ks, key }]
             }
-            3 => vec![self.batch(5, false)],
+            3 => {
+                if self.r.chance(1, 8) {
+                    vec![self.big_batch()]
+                } else {
+                    vec![self.batch(5, false)]
+                }
+            }
             4 => {
                 for c in &mut self.write_count[ks as usize] {
                     *c = 2; // weak removes no longer allowed on anything written before
